@@ -86,6 +86,9 @@ type Call struct {
 	// the scenario says so); otherwise the shared buffer itself is passed.
 	PrivA bool `json:"privA,omitempty"`
 	PrivB bool `json:"privB,omitempty"`
+	// NilA / NilB: the argument is a nil slice (not an empty one)
+	NilA bool `json:"nilA,omitempty"`
+	NilB bool `json:"nilB,omitempty"`
 	// ShareOpts: the *ApplyOptions given to this call is one object per distinct option value,
 	// built before the tasks start and shared by every call (of any task) that sets this flag -
 	// the way a server keeps one options value.  Otherwise each call gets a fresh one.
@@ -216,7 +219,7 @@ func (s *Scenario) ShapeHash() uint64 {
 		wi(int64(c.Slot))
 		wi(int64(c.Corrupt))
 		b := int64(0)
-		for i, f := range []bool{c.Opts.Neg, c.Opts.Allow, c.Opts.Ensure, c.Opts.Escape, c.PrivA, c.PrivB, c.ShareOpts} {
+		for i, f := range []bool{c.Opts.Neg, c.Opts.Allow, c.Opts.Ensure, c.Opts.Escape, c.PrivA, c.PrivB, c.ShareOpts, c.NilA, c.NilB} {
 			if f {
 				b |= 1 << i
 			}
